@@ -312,7 +312,8 @@ pub fn finish(ctx: &Ctx, spec: Spec, rep: Report) -> i32 {
         "wall_s": (wall * 100.0).round() / 100.0,
         "violations": new_sigs.len(),
     });
-    let edir = ctx.verif.join("evidence");
+    // evidence under /verif/evidence describes /repo itself; a run against another tree (VERIF_REPO) keeps its own
+    let edir = if ctx.tag == "main" { ctx.verif.join("evidence") } else { ctx.build.join(format!("evidence-{}", ctx.tag)) };
     let _ = std::fs::create_dir_all(&edir);
     if ctx.replay_sig.is_none() {
         let tmp = edir.join(format!(".{}.json.tmp", ctx.id));
